@@ -329,7 +329,16 @@ func Worker(t *testing.T, id, tier string, seed uint64, shard, nshards int, budg
 		dump, _ = os.Create(path)
 		defer dump.Close()
 	}
+	// self-tests only need to know whether a changed tree is caught: with
+	// VERIF_STOP_FILE set, the first worker that records a violation creates the
+	// file and every worker stops at its next plan
+	stopFile := os.Getenv("VERIF_STOP_FILE")
 	for i := shard; i < n; i += nshards {
+		if stopFile != "" {
+			if _, err := os.Stat(stopFile); err == nil {
+				break
+			}
+		}
 		res.Planned++
 		if time.Now().After(deadline) {
 			res.Complete = false
@@ -425,6 +434,10 @@ func Worker(t *testing.T, id, tier string, seed uint64, shard, nshards int, budg
 			// replay the minimised plan from its file form
 			rep := Replay(t, name)
 			res.Violations = append(res.Violations, ViolationReport{Violation: mv, Replay: name, Reproduced: rep})
+		}
+		if stopFile != "" && len(res.Violations) > 0 {
+			_ = os.WriteFile(stopFile, []byte("violation recorded\n"), 0o644)
+			break
 		}
 	}
 	for k := range distinct {
